@@ -810,7 +810,7 @@ GROUP = Group(
     ],
     trusted=['pyvc/models/trace.py (byte trace, struct.pack/unpack models, byte decomposition)'],
     not_covered=['list-bearing boxes beyond the fixed shapes proved (trun with 1-2 samples under all 64 flag combinations, sidx with '
-                 '0-2 references, pssh with 0-3 key ids): saiz, saio, senc, stsd, sample entries, descriptors, '
-                 'Mp4Atom.load (the scan loop; the box header parser Mp4Atom.parse IS covered), lazy loading and pre-encoded boxes, JSON round trip, tree edits '
-                 '(append/insert/remove and update_size), Mp4Atom.load'],
+                 '0-2 references, pssh with 0-3 key ids, saiz with a 0/1/3-entry table): saio offsets tables, senc, stsd, sample entries, descriptors, '
+                 'Mp4Atom.load (the scan loop; the box header parser Mp4Atom.parse IS covered), lazy loading and pre-encoded boxes, the JSON round trip '
+                 'beyond aux_info_type of saiz / saio, tree edits (append/insert/remove and update_size)'],
 )
